@@ -31,6 +31,8 @@ type c05Fix struct {
 	w         *chain.World
 	A, B      *chain.Cons
 	adminA    *proj
+	adminB    *proj
+	secondB   *proj // enabled second project of B: its pairing (2 providers) may differ from the admin project's
 	second    *proj // enabled project of A with its own developer key
 	off       *proj // disabled project of A
 	gone      *proj // project of A deleted before validFrom
@@ -65,7 +67,7 @@ func makeBadge(rt *rapid.T, signer sigs.Account, user sdk.AccAddress, epoch uint
 
 func TestC05(t *testing.T) {
 	c := ev.For("C05")
-	c.SetRule("per case: a generated world (1-2 chains, 3-4 providers, consumer A with an enabled second project, a disabled project, a deleted project, consumer B on a plan pairing only 2 providers, optionally a consumer whose subscription expires) and a drawn list of 10 mutant payment txs around one control tx; every mutant is a fresh otherwise-valid relay (plain, or with a badge) with one field changed after signing or one semantic defect signed properly, alone or together with a valid relay in the same tx; non-trivial = control accepted and at least one semantic mutant signed by a registered key was executed; distinct = distinct histories")
+	c.SetRule("per case: a generated world (1-2 chains, 3-4 providers, consumer A with an enabled second project, a disabled project, a deleted project, consumer B on a plan pairing only 2 providers with a second project (whose pairing may differ), optionally a consumer whose subscription expires) and a drawn list of 10 mutant payment txs around one control tx; every mutant is a fresh otherwise-valid relay (plain, or with a badge) with one field changed after signing or one semantic defect signed properly, alone or together with a valid relay in the same tx; non-trivial = control accepted and at least one semantic mutant signed by a registered key was executed; distinct = distinct histories")
 	c.Assume("a mutant that is still an authentic paired relay by the statement (a foreign badge attached to a relay signed by a developer key) may be accepted, but then exactly that relay must be credited once",
 		"unpaired provider = a staked provider that the pairing query of the same epoch does not list for the consumer (plan pairs 2 of >=3), or a provider without stake entry on that chain",
 		"re-encodings of a valid signature that keep signer and content (low-S form, the compressed-key flag of the recovery header byte) are not generated: such a relay still is signed by the developer key",
@@ -81,8 +83,11 @@ func propC05(rt *rapid.T, t *testing.T, c *ev.Collector) {
 	narrow.MaxProvidersToPair = 2
 	addPlan(rt, w, "narrow", narrow, 6)
 	f.A, f.adminA = addConsumer(rt, w, "A", "open", 2)
-	f.B, _ = addConsumer(rt, w, "B", "narrow", 2)
+	f.B, f.adminB = addConsumer(rt, w, "B", "narrow", 2)
 	var err error
+	if f.secondB, err = addProject(w, f.B, "second", true, nil, []sigs.Account{w.NewAccount(0)}, nil); err != nil {
+		harnessFatal(rt, "addProject second of B: %v", err)
+	}
 	if f.second, err = addProject(w, f.A, "second", true, nil, []sigs.Account{w.NewAccount(0)}, nil); err != nil {
 		harnessFatal(rt, "addProject second: %v", err)
 	}
@@ -255,7 +260,7 @@ func propC05(rt *rapid.T, t *testing.T, c *ev.Collector) {
 	afterSign := []string{"provider", "provider+sender", "spec", "lavaid", "epoch-future", "epoch-negative", "epoch-offgrid", "epoch-other", "epoch-zero",
 		"session", "cu-more", "cu-less", "hash", "relaynum", "sig-flip", "sig-trunc", "sig-empty", "sig-swap", "qos", "qosexc", "unresp",
 		"badge-addr", "badge-epoch", "badge-chain", "badge-alloc", "badge-sig", "badge-drop", "badge-virtual", "badge-foreign-on-plain"}
-	semantic := []string{"sem-unknown-key", "sem-disabled-project", "sem-deleted-project", "sem-other-sub-unpaired", "sem-unstaked-provider",
+	semantic := []string{"sem-unknown-key", "sem-disabled-project", "sem-deleted-project", "sem-other-sub-unpaired", "sem-other-project-unpaired", "sem-unstaked-provider",
 		"sem-sender-mismatch", "sem-future-epoch", "sem-negative-epoch", "sem-wrong-lavaid", "sem-badge-unknown-signer", "sem-badge-disabled-signer",
 		"sem-badge-wrong-user", "sem-badge-epoch-mismatch", "sem-badge-chain-mismatch", "sem-badge-user-without-badge", "sem-expired-subscription"}
 
@@ -307,6 +312,56 @@ func propC05(rt *rapid.T, t *testing.T, c *ev.Collector) {
 				r.Prov = pick(rt, "unpaired", un)
 				tx.sender = r.Prov
 				r.Signer, r.Cons, registered = f.B.Acc, f.B, true
+			case "sem-other-project-unpaired":
+				// the two projects of B pair 2 providers each: a provider paired with one project only
+				// sends, in ONE block, a valid relay of that project and then a relay signed by the
+				// other project's key (in the same tx, or in the next tx of the block)
+				r.Epoch = int64(epochNow)
+				pa, pb := map[string]bool{}, map[string]bool{}
+				for _, p := range w.PairedProviders(r.Chain, f.adminB.Keys[0].Addr.String()) {
+					pa[p.Addr()] = true
+				}
+				for _, p := range w.PairedProviders(r.Chain, f.secondB.Keys[0].Addr.String()) {
+					pb[p.Addr()] = true
+				}
+				type cand struct {
+					prov       *chain.Prov
+					with, sans *proj
+				}
+				var cands []cand
+				for _, p := range w.Providers {
+					if !stakedAt(w, p, r.Chain, epochNow) {
+						continue
+					}
+					if pa[p.Addr()] && !pb[p.Addr()] {
+						cands = append(cands, cand{p, f.adminB, f.secondB})
+					} else if pb[p.Addr()] && !pa[p.Addr()] {
+						cands = append(cands, cand{p, f.secondB, f.adminB})
+					}
+				}
+				if len(cands) == 0 {
+					return c05Tx{}, false
+				}
+				cd := cands[rapid.IntRange(0, len(cands)-1).Draw(rt, "oneProjectOnly")]
+				f.nextSess++
+				v := chain.RelaySpec{Cons: f.B, Signer: cd.with.Keys[0], Prov: cd.prov, Chain: r.Chain, Epoch: int64(epochNow), Session: f.nextSess, CuSum: 10}
+				cu := v.CuSum
+				vcr := credit{Key: uKey{epochNow, cd.prov.Addr(), cd.with.ID, r.Chain, v.Session}, Cons: f.B.Addr(), Block: epochNow, CuSum: cu, Tracked: &cu}
+				r.Prov, r.Cons, r.Signer, r.Badge, r.QosExc = cd.prov, f.B, cd.sans.Keys[0], nil, nil
+				tx.sender = cd.prov
+				semRegistered++
+				if rapid.Bool().Draw(rt, "sameTx") {
+					tx.msg = buildMsg(rt, w, tx.sender, []chain.RelaySpec{v, r})
+					tx.desc = "valid " + v.String() + " + other project's " + r.String()
+					tx.mayAccept, tx.credits = true, []credit{vcr}
+					tx.class = "semantic:paired-with-another-project-of-the-subscription(same tx)"
+					return tx, true
+				}
+				run(c05Tx{name: "valid-before-" + name, msg: buildMsg(rt, w, tx.sender, []chain.RelaySpec{v}), sender: tx.sender, desc: v.String(), mayAccept: true, credits: []credit{vcr}, class: "control-other-project"})
+				tx.msg = buildMsg(rt, w, tx.sender, []chain.RelaySpec{r})
+				tx.desc = r.String()
+				tx.class = "semantic:paired-with-another-project-of-the-subscription(same block)"
+				return tx, true
 			case "sem-unstaked-provider":
 				var un []*chain.Prov
 				for _, p := range w.Providers {
@@ -526,6 +581,14 @@ func propC05(rt *rapid.T, t *testing.T, c *ev.Collector) {
 		if w.C.Halt != "" {
 			rt.Skip("halted")
 		}
+	}
+
+	// always once when the world allows it (the two pairings of B differ in few worlds)
+	if tx, ok := mutant(rt, "sem-other-project-unpaired"); ok {
+		run(tx)
+	}
+	if w.C.Halt != "" {
+		rt.Skip("halted")
 	}
 
 	// end phase: things that change the world for good
